@@ -13,7 +13,7 @@ const sanitizePasswordLiteral = `'(?:[^'\\]|\\.)*'|"(?:[^"\\]|\\.)*"|["']?[^\s"]
 var (
 	sanitizeSetPassword = regexp.MustCompile(`(?i)password\s+for[^=]*=\s*(` + sanitizePasswordLiteral + `)`)
 
-	sanitizeCreatePassword = regexp.MustCompile(`(?i)with\s+password\s+(` + sanitizePasswordLiteral + `)`)
+	sanitizeCreatePassword = regexp.MustCompile(`(?i)with\s+password\s*(` + sanitizePasswordLiteral + `)`)
 )
 
 // Sanitize attempts to sanitize passwords out of a raw query.
